@@ -17,7 +17,7 @@ EXTENDS Naturals, Sequences, TLC
 
 CONSTANTS Streams,   \* set of inbound byte streams (sequences of 0..255)
           RX,        \* receive buffer length
-          Dev,       \* deviations: "reset_keeps_length"
+          Dev,       \* deviations: "reset_keeps_length", "window_two" (asks for two bytes while the length is unknown)
           Record     \* keep the history of read() calls (behaviour generation)
 
 VARIABLES stream,    \* the stream being read
@@ -45,7 +45,7 @@ Probe(b) == IF Len(b) <= 1 THEN 0 ELSE ProbeFrom(b, 2, 0, 1)
 \* receive_buffer(): the window the next read() may fill, or an error
 Pl2 == IF pl # 0 THEN pl ELSE Probe(buf)
 ProbeFails == pl = 0 /\ Probe(buf) = 0 /\ rb >= 5
-End == IF Pl2 # 0 THEN Pl2 ELSE rb + 1
+End == IF Pl2 # 0 THEN Pl2 ELSE rb + (IF "window_two" \in Dev THEN 2 ELSE 1)
 WindowFails == End > RX
 Want == End - rb
 
